@@ -29,6 +29,14 @@ C11_DocumentedIsAccepted == Has /\ ~Crashed /\ Documented(C) /\ AllOk => R.accep
 \* conformance with the model of the validator
 C11_ConformsValidator == Has /\ ~Crashed => (R.accepted <=> Validate(C))
 
+\* ---- process level: `fan2go config validate` (exit status) and the real daemon on the same file (TestDriveC11Proc) ----
+HasProc == l <= N /\ Recs[l].ev = "Proc" /\ l > 1 /\ Recs[l - 1].ev = "Cfg" /\ Recs[l - 1].idx = Recs[l].idx
+\* what the validation command accepts, the daemon regulates with: every fan's controller started and the process lives on
+C11_ValidatedStarts == HasProc /\ R.cli = 0 => R.daemon = "running" /\ R.captured = R.nfans
+\* conformance (drift): the command decides as the model of the validator does; a rejected file makes the daemon decline
+G11_CliConformsValidator == HasProc => (R.cli = 0 <=> Validate(C))
+G11_RejectedRefused == HasProc /\ R.cli # 0 => R.daemon \in {"refused", "fatal"}
+
 Report == l = N + 1 => PrintT(<<"TRACE-DONE", N, "DRIFT", <<>>>>)
 TraceAccepted == TLCGet("stats").diameter = N + 1
 ==============================================================================
